@@ -466,13 +466,27 @@ def limit_values(kind: str, f: Facts, rng: random.Random) -> tuple[list[int], bo
         if f.C < 1:
             return [], False
         vals = {f.C - 1, f.C, f.C + 1, f.M - 1, f.M, f.M + 1, 3 * f.M, rng.randint(1, f.C)}
+        if f.case.get("sweep"):
+            # the window between "every part fits" and "the whole fits"
+            vals |= set(_sweep(max(1, f.C // 3), f.C - 1, 5)) | set(_sweep(f.C, f.M, 3))
         return sorted(v for v in vals if v >= 1), f.C >= 2
     if kind == "ns":
         if f.N < 1:
             return [], False
         vals = {f.N - 1, f.N, f.N + 1, rng.randint(1, f.N), rng.randint(1, f.N)}
+        if f.case.get("sweep"):
+            vals |= set(_sweep(max(1, f.N // 4), f.N - 1, 6))
         return sorted(v for v in vals if v >= 1), f.N >= 2
     raise ValueError(kind)
+
+
+def _sweep(lo: int, hi: int, n: int) -> list[int]:
+    """Up to n values spread evenly over [lo, hi]."""
+    if hi < lo:
+        return []
+    if hi - lo + 1 <= n:
+        return list(range(lo, hi + 1))
+    return [lo + (hi - lo) * k // (n - 1) for k in range(n)]
 
 
 def refs(kind: str, f: Facts) -> dict[str, int]:
@@ -633,10 +647,10 @@ def minimise(rn: Runner, prog: dict[str, Any], cls: str, ex: dict[str, Any]):
 def shards(tier: str, seed: int) -> list[dict[str, Any]]:
     # (kind, number of shards, cases per shard); thorough = 20 x the quick volume
     if tier == "quick":
-        plan = [("nest", 12, 52), ("ns", 6, 30), ("out", 6, 30), ("intr", 4, 45), ("vary", 2, 55), ("shared", 2, 90),
-                ("cycle", 2, 220), ("chain", 2, 160)]
+        plan = [("nest", 12, 48), ("ns", 6, 30), ("out", 6, 30), ("intr", 4, 45), ("vary", 3, 50), ("layer", 2, 50),
+                ("shared", 2, 80), ("cycle", 2, 200), ("chain", 2, 160)]
     else:
-        plan = [("nest", 24, 580), ("ns", 6, 640), ("out", 6, 640), ("intr", 6, 600), ("vary", 4, 550), ("shared", 4, 900),
+        plan = [("nest", 24, 580), ("ns", 6, 640), ("out", 6, 640), ("intr", 6, 600), ("vary", 6, 500), ("layer", 4, 500), ("shared", 4, 800),
                 ("cycle", 4, 2600), ("chain", 4, 1700)]
     specs: list[dict[str, Any]] = []
     for kind, n, per in plan:
@@ -658,6 +672,9 @@ def floors(tier: str) -> dict[str, int]:
         "programs_with_interrupted_include_loop": 60 * k,
         "intr_loop_limit_at_product_ok": 100 * k,
         "vary_nests_with_growing_inner": 60 * k,
+        "item_nests_nonuniform": 40 * k,
+        "set:longest_item_position": 3,
+        "layer_programs_binding_in_several_contexts": 60 * k,
         "programs_with_lone_surrogate_output": 30 * k,
         "cycles_terminated": 400 * k,
         "write_hook_hits": 10_000 * k,
@@ -679,6 +696,8 @@ def run_shard(spec: dict[str, Any], ctx: Ctx) -> None:
             _interrupts(rn, spec)
         elif kind == "vary":
             _varying(rn, spec)
+        elif kind == "layer":
+            _layers(rn, spec)
         elif kind == "shared":
             _shared(rn, spec)
         elif kind == "cycle":
@@ -741,14 +760,21 @@ def _varying(rn: Runner, spec: dict[str, Any]) -> None:
     ctx = rn.ctx
     for j in range(spec["per"]):
         rng = random.Random(f"{spec['seed']}:vary:{spec['i']}:{j}")
-        prog = G.VaryGen(rng).program()
+        by_item = j % 2 == 1
+        prog = (G.ItemGen(rng) if by_item else G.VaryGen(rng)).program()
         case = G.emit(prog)
         case["marks"] = True
+        case["sweep"] = True
         found = check_case(rn, case, rng, kinds=("huge", "loop"), modes=("sync", "async") if j % 2 == 0 else ("sync",))
         if found is None:
             continue
         ctx.count("vary_programs")
         f = Facts(rn, case)
+        if by_item and f.ok and f.M > f.C >= 2:
+            ctx.count("item_nests_nonuniform")
+            lens = [len(x) if isinstance(x, list) else -x for x in case["data"]["rows"]]
+            pos = lens.index(max(lens))
+            ctx.seen("longest_item_position", "first" if pos == 0 else "last" if pos == len(lens) - 1 else "middle")
         if f.ok and f.M > f.C >= 2:
             # the executed count of the largest nest is below the product of lengths: the
             # inner length is not the same in every outer iteration
@@ -760,6 +786,32 @@ def _varying(rn: Runner, spec: dict[str, Any]) -> None:
         if j % 27 == 0:
             ctx.sample({"kind": "vary", "root": case["root"], "partials": case["partials"], "data": case["data"],
                         "unrestricted": {"nest_count": f.C, "product": f.M}})
+
+
+def _layers(rn: Runner, spec: dict[str, Any]) -> None:
+    """Local variables spread over inheritance layers and block nesting (c06_gen.LayerGen);
+    the namespace limit is swept between a quarter of the peak and the peak."""
+    ctx = rn.ctx
+    for j in range(spec["per"]):
+        rng = random.Random(f"{spec['seed']}:layer:{spec['i']}:{j}")
+        prog = G.LayerGen(rng).program()
+        case = G.emit(prog)
+        case["sweep"] = True
+        found = check_case(rn, case, rng, kinds=("huge", "ns"), modes=("sync", "async") if j % 3 == 0 else ("sync",))
+        if found is None:
+            continue
+        ctx.count("layer_programs")
+        f = Facts(rn, case)
+        m = f.res.mon
+        if f.ok and m is not None and m.assign_depths and len(m.assign_depths) >= 2:
+            # assignments were made in at least two different contexts of one chain
+            ctx.count("layer_programs_binding_in_several_contexts")
+            ctx.mx("max:assign_context_depth", max(m.assign_depths))
+        if found:
+            report(rn, prog, case, found, [str(spec["seed"]), "layer", spec["i"], j])
+        if j % 29 == 0:
+            ctx.sample({"kind": "layer", "root": case["root"], "partials": case["partials"], "data": case["data"],
+                        "unrestricted": {"namespace_peak": f.N}})
 
 
 def _shared(rn: Runner, spec: dict[str, Any]) -> None:
